@@ -170,12 +170,39 @@ NPR = NpWithRng()
 
 
 class PyRandom:
+    """the stdlib `random` generator (the Table sampler draws random.getrandbits from it): under exploration only its seeding discipline
+    is modelled - state = (seed term, position); a draw advances the position"""
+
+    def __init__(self):
+        self.state = ("py-unseeded", 0)
+        self.seed_calls = []
+
+    def reset(self):
+        self.state = ("py-unseeded", 0)
+        self.seed_calls = []
+
     def seed(self, s=None):
         if not _live():
             import random as _r
 
             return _r.seed(s)
-        # the python generator is seeded alongside numpy's; only numpy's stream is consumed by these simulators
+        key = str(z3.simplify(V.to_term(s))) if V.is_sym(s) else repr(s)
+        self.state = (key, 0)
+        self.seed_calls.append(key)
+
+    def draw(self):
+        """called by the harness where the simulated sampler would draw from the python generator"""
+        st = self.state
+        self.state = (st[0], st[1] + 1)
+        return st
+
+    def __getattr__(self, n):
+        import random as _r
+
+        return getattr(_r, n)
+
+
+PYRANDOM = PyRandom()
 
 
 class Clock:
@@ -250,7 +277,7 @@ class _IntShim:
 for mod in (SE, ME, CR, ST, TOOLS, PATH, PROD, PAY, UND, LP, PR):
     if "np" in mod.__dict__:
         mod.__dict__["np"] = NPR
-shims.install(CFG, np=NPR, random=PyRandom(), time=CLOCK, os=OS_, int=_IntShim())
+shims.install(CFG, np=NPR, random=PYRANDOM, time=CLOCK, os=OS_, int=_IntShim())
 shims.install(PNP, npr=NPR.random)
 shims.install(UNI, npr=NPR.random, np=NPR)
 shims.install(TOOLS, scipy=_ScipyShim())
@@ -527,15 +554,79 @@ def replay_repeat(sc):
     return a != b, f"standard engine, seed={sc['seed']}, single process, 4 paths: first run {a!r}, second run {b!r}"
 
 
+def replay_python_generator(sc):
+    """the real Configuration.initialisation_seed(): after it, the stdlib generator must be in the state the seed determines (the Table
+    sampler draws random.getrandbits): two seeded initialisations separated by draws give the same next value"""
+    import random as _r
+
+    cfg = CFG.ConfigurationStandard(mc_paths=4, seed=sc["seed"], nb_of_processes=1)
+    cfg.initialisation_seed()
+    a = _r.getrandbits(32)
+    _r.getrandbits(32)
+    cfg.initialisation_seed()
+    b = _r.getrandbits(32)
+    return a != b, f"seed={sc['seed']}: random.getrandbits(32) right after initialisation_seed() gives {a}, after a second initialisation_seed() {b}"
+
+
 def h_repeat_standard(ctx, n, seed):
     RNG.reset(ctx)
+    PYRANDOM.reset()
     CLOCK.reads, CLOCK.frozen = [], None
     OS_.pid = ctx.int("pid", 2)
     s1, t1 = standard_run(ctx, n, seed, 1)
+    py1 = PYRANDOM.state
+    PYRANDOM.draw()  # a sampler drawing from the python generator (Table method) leaves it somewhere else
     RNG.new_unseeded_continue = True
     s2, t2 = standard_run(ctx, n, seed, 1)  # second run in the same interpreter: the generator continues from where run 1 left it
+    py2 = PYRANDOM.state
     ctx.prove("C08.seeded_single_process_run_repeats.standard", EQ(s1.price(), s2.price()), info={"n": n, "seed": seed},
               replay=(replay_repeat, lambda m: {"seed": seed}), regions={"seed_is_zero": seed == 0})
+    ctx.prove("C08.seeded_run_puts_the_python_generator_in_the_seeded_state", py1 == py2 and py1[0] != "py-unseeded", info={"seed": seed, "states": [py1, py2]},
+              replay=(replay_python_generator, lambda m: {"seed": seed}))
+
+
+def replay_predraw(sc):
+    """real fixed-date simulator: the pre-drawn jump counts of 400 paths (intensity 0.7) must not all coincide"""
+    import numpy as _np
+
+    class M(DirectModel):
+        def intensity(self):
+            return 0.7
+
+        def jump_increment(self, n):
+            return _np.random.normal(size=int(n))
+
+    proc = LP.LevyProcess(M())
+    prod = SimpleProduct(_np.array([0.0, 1.0]))
+    proc.initialisation(prod)
+    st = _np.random.get_state()
+    _np.random.seed(11)
+    try:
+        proc.pre_computation(400, prod)
+    finally:
+        _np.random.set_state(st)
+    counts = _np.array(list(proc._path_simulation._poisson_rv)).ravel()
+    same = len(set(counts.tolist())) == 1
+    return same, f"SimulationFixedTimes.pre_computation(400 paths, Poisson rate 0.7): pre-drawn jump counts {sorted(set(counts.tolist()))} - every path has the same count"
+
+
+def h_predraw(ctx, n):
+    """fixed-date mode: the rows of pre-drawn jump counts and Brownian increments are built from pairwise distinct variates"""
+    RNG.reset(ctx)
+    proc = LP.LevyProcess(DirectModel())
+    prod = SimpleProduct(np.array([0.0, 1.0]))
+    proc.initialisation(prod)
+    proc.pre_computation(n, prod)
+    sim = proc._path_simulation
+    counts = [V.term_of(row[0]) if V.is_sym(row[0]) else None for row in sim._poisson_rv]
+    normals = [V.term_of(np.asarray(row, dtype=object).reshape(-1)[0]) for row in sim._brownian_increments]
+    rp = (replay_predraw, lambda m: {})
+    ctx.prove("C08.one_pre_drawn_row_per_path", len(sim._poisson_rv) == n and len(sim._brownian_increments) == n, info={"n": n}, replay=rp)
+    for a in range(n):
+        for b in range(a):
+            if counts[a] is not None and counts[b] is not None:
+                ctx.prove("C08.pre_drawn_jump_counts_are_distinct_variates", NOT(SymBool(sharing_condition(counts[a], counts[b]))), info={"pair": (b, a)}, replay=rp)
+            ctx.prove("C08.pre_drawn_brownian_increments_are_distinct_variates", NOT(SymBool(sharing_condition(normals[a], normals[b]))), info={"pair": (b, a)}, replay=rp)
 
 
 def replay_sharing_standard(sc):
@@ -803,11 +894,12 @@ def harnesses(tier):
             hs.append(Harness(f"sharing.standard.p{nproc}.seed{seed}", h_sharing_standard, {"n": 2 if q else 3, "nproc": nproc, "seed": seed}, max_paths=20000, batch=20))
     for seed in (None, 7):
         hs.append(Harness(f"sharing.mlmc.seed{seed}", h_sharing_mlmc, {"seed": seed, "n0": 1, "ns2": [2, 2] if q else [3, 2]}, max_paths=4000, batch=20))
+    hs.append(Harness("predraw", h_predraw, {"n": 2 if q else 3}, max_paths=2000))
     hs.append(Harness("twin", h_twin, twin="must_fail"))
     return hs
 
 
-EXPECT = ["C08.seeded_single_process_run_repeats.standard", "C08.seeded_single_process_run_repeats.multilevel", "C08.no_two_paths_share_a_variate.standard",
+EXPECT = ["C08.pre_drawn_jump_counts_are_distinct_variates", "C08.seeded_run_puts_the_python_generator_in_the_seeded_state", "C08.seeded_single_process_run_repeats.standard", "C08.seeded_single_process_run_repeats.multilevel", "C08.no_two_paths_share_a_variate.standard",
           "C08.no_two_samples_share_a_variate.multilevel"]
 
 
